@@ -16,7 +16,7 @@ func aggCfg(id, tier string) agg.Config {
 			"ce mod acoin u1 u1 1", "ce mod bcoin u1 u2 3", "ce mod acoin u1 blocked 1", "ce mod acoin u1 u1 20", "ce mod ccoin u1 u1 1",
 			"ce ext v:ext u1 u1 3", "ce ext v:ext u1 u2 11", "ce ext acoin u1 u1 1", "cc v:ext u1 u2 1", "cc v:ext u1 u1 4",
 			"ce steal v:steal u1 u1 2", "ce delayed v:delayed u1 u1 2",
-			"gov toggle acoin", "gov toggle ext", "gov enable false", "gov enable true",
+			"gov toggle acoin", "gov toggle ext", "gov enable false", "gov enable true", "reimport",
 		}}
 		if tier == "thorough" {
 			c.Depth = 8
@@ -29,7 +29,7 @@ func aggCfg(id, tier string) agg.Config {
 			"gov regerc20 ext", "gov regerc20 ext2", "gov regerc20 mod", "gov regerc20 eoa",
 			"gov toggle acoin", "gov toggle ext", "gov toggle bcoin",
 			"gov update ext ext2", "gov update ext mod", "gov update mod ext2", "gov update mod mod2", "gov update ext2 ext",
-			"destruct ext", "destruct mod",
+			"destruct ext", "destruct mod", "reimport",
 			"cc acoin u1 u1 3", "cc bcoin u1 u1 2", "ce mod bcoin u1 u1 1", "ce mod acoin u1 u1 1", "ce ext v:ext u1 u1 2", "cc v:ext u1 u1 1",
 		}}
 		if tier == "thorough" {
@@ -52,7 +52,7 @@ func registerAgg(id, rule string, minClasses int) {
 			return bfs.Spec{Name: id, New: func() bfs.System { return agg.New(cfg) }, MaxDepth: cfg.Depth, Deadline: d}
 		},
 		rule: rule,
-		assume: []string{"cosmos-sdk bank and the EVM are trusted", "self-destruction is modelled as the repository's own tests do (the contract account is deleted)", "amounts from {1,2,3,balance+1}; two users, three coins, two honest external tokens and the repository's two malicious tokens"},
+		assume: []string{"cosmos-sdk bank and the EVM are trusted", "the module state may at any point go through its own genesis export and import (operation reimport)", "self-destruction is modelled as the repository's own tests do (the contract account is deleted)", "amounts from {1,2,3,balance+1}; two users, three coins, two honest external tokens and the repository's two malicious tokens"},
 		bounds: func(tier string) map[string]interface{} {
 			c := aggCfg(id, tier)
 			return map[string]interface{}{"depth": c.Depth, "operations": c.Ops}
